@@ -3,5 +3,5 @@ CONSTANTS Design = "copy"
  MaxResp = 2
  MaxSteps = 5
  KindsUsed <- CoreKinds
-INVARIANTS Emit L2ImpliesL1
+INVARIANTS Emit EmitConc L2ImpliesL1
 CHECK_DEADLOCK FALSE
